@@ -17,6 +17,12 @@ theorem message_write_is_one_write :
     Gen.Message.writeExternal = ["basic.WriteN(w, buf.Bytes(), int(m.Header.Size+HeaderSize))"] :=
   Tie.C01.write_single_call.1
 
+/-- `AddHandler`: the consumer goroutine ranges over the handler's own queue (a FIFO of ten) and calls the consumer on
+    each message in turn; nothing stands between the queue `dispatch` fills and the consumer -/
+theorem add_handler_consumes_its_queue :
+    Gen.Endpoint.addHandlerFlow =
+      ["go{", "func{", "range {", "if err != nil {", "}", "}", "}", "}", "return e.MakeHandler(f, ch, cl)"] := rfl
+
 /-- `connStream` embeds the connection: `Write` is the connection's own method, not overridden -/
 theorem connStream_passes_write :
     Gen.Stream.connStreamFields = ["embedded gonet.Conn", "ctx context.Context"] ∧
